@@ -1393,11 +1393,16 @@ func (p *parser) parseAttributeDefault() (*AttributeDefault, error) {
 
 		} else {
 			invVal, err := p.parseInt(t.value)
-			if err != nil {
+			if err == nil {
+				attDef.ValueInt = invVal
+				attDef.Type = AttributeDefaultInt
+			} else if floatVal, floatErr := p.parseDouble(t.value); floatErr == nil {
+				// numbers without a fraction that do not fit an int (e.g. 1e19, 2^63)
+				attDef.ValueFloat = floatVal
+				attDef.Type = AttributeDefaultFloat
+			} else {
 				return nil, p.errorf("cannot parse int attribute default value as int")
 			}
-			attDef.ValueInt = invVal
-			attDef.Type = AttributeDefaultInt
 		}
 
 	} else {
@@ -1498,11 +1503,16 @@ func (p *parser) parseAttributeValue() (*AttributeValue, error) {
 
 		} else {
 			invVal, err := p.parseInt(t.value)
-			if err != nil {
+			if err == nil {
+				attVal.ValueInt = invVal
+				attVal.Type = AttributeValueInt
+			} else if floatVal, floatErr := p.parseDouble(t.value); floatErr == nil {
+				// numbers without a fraction that do not fit an int (e.g. 1e19, 2^63)
+				attVal.ValueFloat = floatVal
+				attVal.Type = AttributeValueFloat
+			} else {
 				return nil, p.errorf("cannot parse int attribute value as int")
 			}
-			attVal.ValueInt = invVal
-			attVal.Type = AttributeValueInt
 		}
 
 	} else {
